@@ -49,6 +49,18 @@ claims = {
   text="Reduced claim, decided per function: (1) GET handlers (blobGet$1, manifestGet$1): at the call of http.ServeContent the reader being served was handed out by the store for exactly the digest that the Docker-Content-Digest header reports (ghost field of the reader), also after content negotiation replaced the descriptor by a child, and for a request by digest that digest is the one in the URL. (2) push handlers: a PUT closes the session only after Verify(digest parameter) succeeded, and a manifest is stored under the digest computed from the received bytes (reference-is-tag-or-body-digest). (3) upload objects of both stores: the representation invariant 'the writer is the tee of the file/buffer and of the hash of the current digester' is established where the object is built and kept by every method, so no accepted byte bypasses the hash and the digester cannot be swapped without the writer.",
   ref="DESIGN.md 5 (C01), 11",
   note=COMMON_TRUST + STORE_ASSUMED + "Not proved: that the digest reported by a digester is the hash of the bytes fed to it (go-digest, crypto), that Close stores the file under exactly that digest when no digest was pinned (read off the code: the blob name is built from d.Digest()), rescans after an algorithm change (Seek/Copy are not modelled), partial writes after an I/O fault. Content of stored blobs is not modelled, so 'never retrievable under a wrong digest' is reduced to the three clauses above."),
+ "C02": dict(
+  text="Reduced claim; the clauses that contracts can state without a model of stored bytes. (1) manifestPut$1: a body longer than the configured limit is refused with 413 on every path, also when the length is unknown, so nothing is ever stored in a shortened form (ghost 'truncated' flag of the limited reader, asserted false at the 201). (2) GET handlers: the reader that is served is the one the store handed out for the acknowledged digest, the Content-Type reported is the media type recorded with the entry, the digest header is that digest (shared with C01). (3) Re-registration on load: indexIngest leaves the scan of nested indexes only with an empty work list, so manifests reachable through nested indexes stay addressable by digest after a restart. (4) The tag and digest lookups that GET relies on are exact (GetDesc, shared with C18).",
+  ref="DESIGN.md 5 (C02), 11",
+  note=COMMON_TRUST + STORE_ASSUMED + "NOT decided: that the bytes read back equal the bytes pushed (no content model: stored bytes, Content-Length and range slices are the store's files and net/http's ServeContent, both outside the contracts); 'until deleted or collected' is covered only through C05's rules."),
+ "C09": dict(
+  text="Reduced claim: ordering clauses, not a crash enumeration. (1) Handlers: an index entry is inserted only after the content it points to was stored (precondition blobReady of IndexInsert at every call), and 201 is written only after the last store call succeeded. (2) dirRepo.indexSave: index.json is replaced only by renaming a temp file of the same directory into place, and the encoder wrote into that very file (not into a buffer in front of it) before the rename. (3) dirRepo.repoInit: a layout file that is missing, unreadable or invalid - e.g. torn by a crash during its in-place write - is written again before the repository counts as existing. (4) dirRepoUpload.Close: a blob file appears only by renaming the closed temp file, after the pinned digest was checked.",
+  ref="DESIGN.md 5 (C09), 11",
+  note=COMMON_TRUST + STORE_ASSUMED + "NOT decided: the state after a crash between two arbitrary file system operations (that needs enumeration of crash points over a file system model, a different technique family), fsync/durability, recovery of interrupted uploads. rename is assumed atomic; Encode is assumed to have written everything when it returns nil."),
+ "C10": dict(
+  text="Reduced claim, clauses about what the directory store writes and where: blob files are named blobs/<alg>/<hex> of the digest the digester reports (dirRepoUpload.Close), every path stays below the repository directory (with C16), index.json is the encoding of the in-memory index at the time of the save and what a collection saves is the index it computed (dirRepo.gc), a repository only counts as existing with a valid oci-layout (repoInit), and on load every nested index is re-registered (indexIngest work list).",
+  ref="DESIGN.md 5 (C10), 11",
+  note=COMMON_TRUST + STORE_ASSUMED + "NOT decided: equality of the directory content with the API-visible state at every quiescent point (needs a ghost file system, not built), equality of dir and mem stores on replay, recorded sizes. The known defect D12 (removal of an emptied repository can leave blobs/ behind while index.json and oci-layout are gone) is not decided by this check and not repaired."),
  "C05": dict(
   text="Two layers, labelled separately in the evidence. (1) Proved by contract on the real code, for all inputs: step invariants of repoGarbageCollect (every child of a walked index is queued; config and layers of a walked image are marked; a blob or index entry is only removed when it is unmarked, respectively has no blob), and the age rules that make 'recent' mean 'recently acknowledged': memRepoUpload.Close stores the blob with an age not older than the call, BlobCreate refreshes the age of a blob it reports as existing (both stores). (2) Bounded stand-in for what those contracts do not decide - that the marked set is closed under the retention rules: the real collector is run on every repository over a small universe (2 configs, 2 layers, an image, an image listing the first as a layer, an index, an artifact whose subject is a manifest or a layer; every top-level state, 2 entry orders, 8 policies; memory store in quick, both stores in thorough) and compared with the least fixed point of the rules of the statement. The bounded part found the two closure defects (walked vs. seen; referrers of layers), now repaired.",
   ref="DESIGN.md 5 (C05), 11",
@@ -71,9 +83,6 @@ not_applicable = {
  "C11": "whole-history property over concurrent schedules (linearizability); contracts on single calls cannot express or decide it, and the technique family is fixed (DESIGN.md 6)",
  "C12": "liveness under all interleavings; out of reach of per-call contracts. The sequential self-deadlock obligations (re-locking a held mutex) that govc generates are recorded in the lock file under C12 but decide only a fragment, so nothing is claimed (DESIGN.md 6)",
  "C13": "data-race freedom is a property of schedules under the Go memory model; no contract within reach expresses it (DESIGN.md 6)",
- "C02": "byte-identical read-back needs a model of stored content (ghost bytes of blobs), which the contracts do not have; clauses that are proved and tagged C02 (a manifest over the size limit is refused, never stored shortened; the media type reported is the stored one; nested indexes are all re-registered on load) are locked and reported under C04/C01/C10 but do not add up to the property: not claimed",
- "C09": "designed (DESIGN.md 5); only the handler-level order 'content before index entry before 201' is proved; the file-system step order of dir.go is not under contract: not claimed",
- "C10": "equality of the directory with the API state needs a ghost file system for dir.go, which was not built; only the work-list clause of indexIngest (nested indexes all scanned) carries the tag: not claimed",
 }
 
 def main():
